@@ -63,12 +63,20 @@ Next == UNCHANGED vars
 K10 == <<49, 48>>
 Prog == SetLine(Fresh, K10, toks)
 
-RECURSIVE RunOn(_, _)
-RunOn(r, fuel) ==
-    IF Unknown(r) THEN [ok |-> FALSE, kind |-> "unknown"]
-    ELSE IF ~r.res.ok THEN [ok |-> FALSE, kind |-> r.res.kind]
-    ELSE IF r.I.mode = "running" /\ fuel > 0 THEN RunOn(Step(r.I, CContinue), fuel - 1)
-    ELSE [ok |-> TRUE, kind |-> ""]
+\* the printed text of a sequence of output records, and whether the model knows all of it
+RECURSIVE PrintedText(_)
+PrintedText(outs) == IF outs = <<>> THEN [s |-> <<>>, unk |-> FALSE]
+                     ELSE LET t == PrintedText(Tail(outs))
+                          IN  IF outs[1].t = "print" THEN [s |-> outs[1].text \o t.s, unk |-> outs[1].unk \/ t.unk] ELSE t
+
+RECURSIVE RunFrom(_, _, _)
+RunFrom(r, fuel, outs) ==
+    LET o == outs \o r.out
+    IN  IF Unknown(r) THEN [ok |-> FALSE, kind |-> "unknown", out |-> o, line |-> <<>>]
+        ELSE IF ~r.res.ok THEN [ok |-> FALSE, kind |-> r.res.kind, out |-> o, line |-> IF r.res.hl THEN r.res.line ELSE <<>>]
+        ELSE IF r.I.mode = "running" /\ fuel > 0 THEN RunFrom(Step(r.I, CContinue), fuel - 1, o)
+        ELSE [ok |-> r.I.mode = "idle", kind |-> IF r.I.mode = "idle" THEN "" ELSE "unknown", out |-> o, line |-> <<>>]
+RunOn(r, fuel) == RunFrom(r, fuel, <<>>)
 RunResult == RunOn(Step(Prog, CSubmit(B("RUN"))), 50)
 AErrs == ProgramErrors(Prog)
 IsBad(kind) == kind \in {"type_mismatch", "undefined_statement"} \/ (Len(kind) >= 6 /\ SubSeq(kind, 1, 6) = "syntax")
@@ -83,6 +91,9 @@ C06 == LET run == RunResult
             /\ (AErrs = <<>>) => (run.ok \/ ~IsBad(run.kind)))
 
 ListingBody0 == LET ll == ListLine(K10, toks) IN SubSeq(ll.s, 1, Len(ll.s) - 1)
-Row == [text |-> ListingBody0, aerr |-> IF AErrs = <<>> THEN "" ELSE AErrs[1].err, run_ok |-> RunResult.ok, run_kind |-> RunResult.kind, straight |-> Straight]
+Row == [text |-> ListingBody0, aerr |-> IF AErrs = <<>> THEN "" ELSE AErrs[1].err, run_ok |-> RunResult.ok, run_kind |-> RunResult.kind, straight |-> Straight,
+        \* C03 on the same programs: the printed output and, on failure, the line
+        out |-> PrintedText(RunResult.out).s, out_known |-> RunResult.kind # "unknown" /\ ~PrintedText(RunResult.out).unk,
+        err_line |-> RunResult.line]
 EmitRow == EmitRows => PrintT(<<"ROW", ToJson(Row)>>)
 =============================================================================
